@@ -241,6 +241,13 @@ class FldMonitor:
         if not rows:
             ctx.hit("out_of_domain:reader without rows")
             return
+        if any(len(r) < len(shadow.input_variables) for r in rows):
+            # a row that does not hold a value for every input variable cannot be tabulated: nothing but a refusal is faithful
+            ctx.hit("piece:reader row with too few values")
+            ctx.violation("a reader row with fewer values than there are input variables is accepted (the values are re-flowed into other rows)", case, "an error", str(result)[:300])
+            return
+        if len({len(r) for r in rows}) > 1:
+            ctx.hit("piece:reader rows of different lengths accepted")
         if self.check_table(exporter, shadow, result, [r[: len(shadow.input_variables)] for r in rows], d, case, exact_inputs=True):
             ctx.nontrivial("reader", st["text"], skip, d)
 
@@ -341,7 +348,7 @@ def run(ctx):
             except Exception:
                 pass
         # reader
-        for i, rnd in ctx.cases("reader", ctx.scale(60, 2000)):
+        for i, rnd in ctx.cases("reader", ctx.scale(250, 4000)):
             spec = E.gen_engine(rnd, activations=("General",), max_inputs=3, d=3, resolutions=[5, 10], max_rules=3, max_depth=1)
             try:
                 engine = E.build(fl, spec)
@@ -359,6 +366,27 @@ def run(ctx):
                 else:
                     row = E.finite_rows(rnd, spec, 1)[0]
                     lines.append(rnd.choice(["", "  "]) + " ".join(f"{x:.6f}" for x in row) + rnd.choice(["", " ", "   "]))
+            data = [k for k, ln in enumerate(lines) if k >= skip and ln.strip() and not ln.strip().startswith("#")]
+            shape = rnd.random()
+            if shape < 0.35:
+                # the rows also carry output columns, as every exported dataset does (only the input columns are read)
+                extra = rnd.randint(1, 3)
+                for k in data:
+                    lines[k] = lines[k].rstrip() + "".join(f" {rnd.uniform(-1, 1):.3f}" for _ in range(extra))
+                ctx.hit("reader:rows with output columns")
+            elif shape < 0.55 and len(data) >= 2:
+                # ragged: values missing from some rows and surplus in others (refused, or the rows are read as they are given)
+                n_in = len(spec["inputs"])
+                moved = 0
+                for k in rnd.sample(data, rnd.randint(1, len(data))):
+                    toks = lines[k].split()
+                    if rnd.random() < 0.5 and len(toks) > 1:
+                        lines[k] = " ".join(toks[:-1])
+                        moved += 1
+                    else:
+                        lines[k] = " ".join(toks + [f"{rnd.uniform(-1, 1):.3f}"] * (moved if moved and rnd.random() < 0.7 else 1))
+                        moved = 0
+                ctx.hit("reader:ragged rows")
             text = "\n".join(lines) + rnd.choice(["", "\n"])
             with fl.settings.context(decimals=rnd.choice([1, 3, 6])):
                 try:
@@ -369,7 +397,7 @@ def run(ctx):
                 ctx.sample("reader", {"reader": text, "skip_lines": skip})
         probe.report(ctx)
         reach.report(ctx)
-    ctx.require("ranges held as integers")
+    ctx.require("ranges held as integers", "reader:rows with output columns", "reader:ragged rows")
     ctx.require("hook:FldExporter.to_string_from_scope", "hook:FldExporter.to_string_from_reader", "scope:AllVariables", "scope:EachVariable", "scope:reader", "compare:outputs of a row", "piece:perfect power", "piece:between powers", "inputs:1", "inputs:2", "inputs:3", "inputs:4", "entry:file", "entry:writer")
 
 
